@@ -14,7 +14,9 @@ type LatLngYAML struct {
 }
 
 func (f LatLngYAML) MarshalYAML() (interface{}, error) {
-	return fmt.Sprintf("%f, %f", f.LatLng.Lat.Degrees(), f.LatLng.Lng.Degrees()), nil
+	// Full precision, rather than %f's 6 decimal places, which moves points
+	// by up to 5cm
+	return b6.LatLngToString(f.LatLng), nil
 }
 
 func (f *LatLngYAML) UnmarshalYAML(unmarshal func(interface{}) error) error {
